@@ -43,6 +43,24 @@ Definition css_fun_matrix (g : box_geom) (f : tfun) : T :=
 Definition css_spec (g : box_geom) (fs : list tfun) : T :=
   conjugate (spec_origin_x g) (spec_origin_y g) (product (map (css_fun_matrix g) fs)).
 
+(* CSS Transforms 1, section 12 (2D transform functions), source level *)
+Definition css_src_matrix (tr : ctrig) (g : box_geom) (f : css_src) : T :=
+  match f with
+  | CRotate v u => m_rotate (fst (fst (tr v u))) (snd (fst (tr v u)))
+  | CSkewX v u | CSkew1 v u => m_skewX (snd (tr v u))
+  | CSkewY v u => m_skewY (snd (tr v u))
+  | CTranslate1 x | CTranslateX x => m_translate (spec_resolve x (bw g)) 0
+  | CTranslate2 x y => m_translate (spec_resolve x (bw g)) (spec_resolve y (bh g))
+  | CTranslateY y => m_translate 0 (spec_resolve y (bh g))
+  | CScale1 s => m_scale s s
+  | CScale2 sx sy => m_scale sx sy
+  | CScaleX s => m_scale s 1
+  | CScaleY s => m_scale 1 s
+  | CMatrix a b c d e f => mk a b c d e f
+  end.
+Definition css_src_spec (tr : ctrig) (g : box_geom) (fs : list css_src) : T :=
+  conjugate (spec_origin_x g) (spec_origin_y g) (product (map (css_src_matrix tr g) fs)).
+
 (* SVG 1.1 7.6: rotate(a cx cy) = translate(cx,cy) rotate(a) translate(-cx,-cy);
    scale(s) = scale(s,s); translate(x) = translate(x,0) *)
 Definition svg_fun_matrix (tr : trig) (s : svg_src) : T :=
